@@ -132,12 +132,18 @@ void h_addPool(void) {
   Pool *np = MemoryPoolList_ResourceManager__SlotData__addPool(l, a);
   COVER(np != 0 && !g_create_ok); COVER(np != 0 && g_create_ok);
 #if !SCEN_HEAP
-  COVER(np != 0 && g_inc_called); COVER(np == 0);
+  COVER(np == 0);
+#if ARDUINOJSON_INITIAL_POOL_COUNT < PP_MAXPOOLS /* (otherwise the preallocated table is never full: count_ <= maxPools < INITIAL) */
+  COVER(np != 0 && g_inc_called);
+#else
+  COVER(np == 0 && !g_inc_called && (uint64_t)old_count == MAXPOOLS && old_count < old_cap); /* free table entries but no slot ids left */
+#endif
 #endif
 #if SCEN_HEAP && PP_MAXPOOLS <= 64
   COVER(np != 0 && old_count + 1 == MAXPOOLS);
 #endif
-  CHECK(g_inc_called == (old_count == old_cap), "the table is grown iff it is full");
+  CHECK(!g_inc_called || old_count == old_cap, "the table is grown only when it is full");
+  CHECK(g_inc_called || old_count != old_cap || (uint64_t)old_count >= MAXPOOLS, "a full table is grown unless maxPools pools exist already");
   CHECK(l->pools_[j].slots_ == ej.slots_ && l->pools_[j].capacity_ == ej.capacity_ && l->pools_[j].usage_ == ej.usage_,
         "existing pool entries are untouched by addPool");
   if (np) {
@@ -149,7 +155,8 @@ void h_addPool(void) {
 #endif
     CHECK(l->count_ <= l->capacity_ && (uint64_t)l->count_ <= MAXPOOLS, "count_ stays within capacity_ and maxPools");
   } else {
-    CHECK(g_inc_called && (!g_inc_ok || (uint64_t)old_cap >= MAXPOOLS), "addPool fails only when the table cannot grow");
+    CHECK((uint64_t)old_count >= MAXPOOLS || (g_inc_called && (!g_inc_ok || (uint64_t)old_cap >= MAXPOOLS)),
+          "addPool fails only when maxPools pools exist (no slot id left) or the table cannot grow");
     CHECK(l->count_ == old_count && l->capacity_ == old_cap, "failed addPool changes neither count nor capacity");
   }
 }
